@@ -473,9 +473,22 @@ pub fn c03(rec: &mut Rec, rng: &mut Rng, thorough: bool) {
                 }
                 5 | 6 => {
                     let (bytes, _) = pipeline(rng, 3, false);
-                    let cuts = gen::cuts(rng, &bytes, 4);
+                    let cuts = gen::cuts(rng, &bytes, 6);
                     for ch in gen::split_at_cuts(&bytes, &cuts) {
                         d.recv(rec, &ch, 0);
+                        // a read that fails or ends the stream INSIDE a request (between header lines, between
+                        // two chunks of a body): the connection is used on, and must not panic afterwards
+                        match rng.below(6) {
+                            0 => {
+                                d.rerr(rec, *rng.pick(&[libc::EAGAIN, libc::EINTR, libc::ECONNRESET]));
+                                rec.count("c03:read-error-inside-request");
+                            }
+                            1 => {
+                                d.eof(rec, if rng.chance(1, 4) { rng.below(3) } else { 0 });
+                                rec.count("c03:eof-inside-request");
+                            }
+                            _ => {}
+                        }
                     }
                 }
                 7 => {
